@@ -52,15 +52,20 @@ def linRaw (after steps : ℕ) (minc : ℚ) (attempt : ℤ) : ℚ :=
   if attempt - after ≥ steps then minc
   else 1 + (minc - 1) * ((attempt - after : ℤ) : ℚ) / steps
 
-theorem linear_eq_round {after steps : ℕ} {minc : ℚ} (ha : 1 ≤ after) (a : ℤ) :
-    linearCredit after steps minc a = round4 (linRaw after steps minc a) := by
+theorem rmax_ge_right (a b : ℚ) : b ≤ rmax a b := by unfold rmax; split_ifs <;> linarith
+theorem rmax_le {a b c : ℚ} (ha : a ≤ c) (hb : b ≤ c) : rmax a b ≤ c := by unfold rmax; split_ifs <;> assumption
+theorem rmax_mono {a a' b : ℚ} (h : a ≤ a') : rmax a b ≤ rmax a' b := by unfold rmax; split_ifs <;> linarith
+theorem rmax_one {b : ℚ} (h : b ≤ 1) : rmax 1 b = 1 := by unfold rmax; split_ifs with h' <;> linarith
+
+theorem linear_eq_max {after steps : ℕ} {minc : ℚ} (ha : 1 ≤ after) (h1 : minc ≤ 1) (a : ℤ) :
+    linearCredit after steps minc a = rmax (round4 (linRaw after steps minc a)) minc := by
   unfold linearCredit linRaw
-  by_cases h1 : a = 1
-  · subst h1
+  by_cases h : a = 1
+  · subst h
     have : (1 : ℤ) - (after : ℤ) ≤ 0 := by omega
-    simp [this, round4_one]
-  · simp only [h1, if_false]
-    split_ifs <;> simp [round4_one]
+    simp [this, round4_one, rmax_one h1]
+  · simp only [h, if_false]
+    split_ifs <;> simp [round4_one, rmax_one h1]
 
 theorem linRaw_range {after steps : ℕ} {minc : ℚ} (hs : 1 ≤ steps) (h0 : 0 ≤ minc) (h1 : minc ≤ 1) (a : ℤ) :
     minc ≤ linRaw after steps minc a ∧ linRaw after steps minc a ≤ 1 := by
